@@ -1,7 +1,7 @@
 (* C02 correspondence: spin<->binary conversions and edits through live views. *)
 From Coq Require Import List ZArith QArith Qcanon Bool Arith.
 From Dimod Require Import Base.Util Model.Poly Model.HPoly Model.View Model.Penalty Model.ViewOps Model.HPolyPy.
-From Dimod Require Model.Adj Model.AdjSubstAll Model.IsingQubo Model.SSet Model.SSetVartype Model.PyBqm Gen.Gen_PyBQM Model.Expr Model.VartypeOps.
+From Dimod Require Model.Adj Model.AdjSubstAll Model.IsingQubo Model.SSet Model.SSetVartype Model.PyBqm Gen.Gen_PyBQM Model.Expr Model.VartypeOps Model.IsingQuboGen Model.FlipMarks.
 Import ListNotations.
 Open Scope Qc_scope.
 
@@ -56,6 +56,12 @@ Inductive case :=
 | QI (Q : IsingQubo.qdict) (off : Qc) (hobs : IsingQubo.hdict) (Jobs : IsingQubo.qdict) (offobs : Qc)
 (* SampleSet.change_vartype: rows, energies, occurrences, labels before and after *)
 | SSConv (target : vartype) (off : Qc) (before after : SSet.sset)
+(* SampleSet.change_vartype to a vartype it cannot convert to: the call raised ValueError; `after` is the state the
+   receiver was left in.  The model (which mirrors the code: energies are shifted BEFORE the vartype test) says
+   Fail; rows, labels, vartype, occurrences must be untouched; for the energies both the code's present behaviour
+   (already shifted by the offset) and an atomic failure (unchanged) are accepted - the property text does not
+   promise atomicity, the worker records which one was seen *)
+| SSFail (target : vartype) (off : Qc) (before after : SSet.sset)
 (* pybqm.py pyBQM.change_vartype (dict back-end, multipliers generated from the source) on the observed _adj dicts *)
 | PyConv (t : Gen_PyBQM.pb_target) (before after : PyBqm.pybqm)
 (* quadratic_model.h change_vartype(vartype, v) / quadratic_model.py spin_to_binary on the raw QM state
@@ -64,7 +70,12 @@ Inductive case :=
 | QmS2B (before after : VartypeOps.qmi)
 (* constrained_quadratic_model.h change_vartype / constrained.py spin_to_binary on the raw CQM state *)
 | CqmCv (target : vartype) (v : nat) (before : Expr.mcqm) (after : option Expr.mcqm)
-| CqmS2B (before after : Expr.mcqm).
+| CqmS2B (before after : Expr.mcqm)
+(* quadratic_model.py / binary_quadratic_model.py flip_variable (the python loops over the neighbourhood) on the reported
+   coefficients; vt = vartype of v *)
+| Flip (n : nat) (vt : vartype) (v : label) (before after : obs)
+(* constrained.py / cyconstrained.pyx flip_variable on the raw CQM state (markers as is_discrete); None = ValueError *)
+| CqmFlip (v : nat) (before : Expr.mcqm) (after : option Expr.mcqm).
 
 Definition raw_nbh_eqb : Adj.nbh -> Adj.nbh -> bool := list_eqb (pair_eqb Nat.eqb Qc_eqb).
 Definition raw_qm_eqb (a b : Adj.qm) : bool :=
@@ -134,10 +145,16 @@ Definition check (c : case) : bool :=
   | AdjConv target before after =>
       Adj.inv_b before && Adj.inv_b after
       && raw_qm_eqb (AdjSubstAll.bqm_change_vartype target before) after
-  | IQ h J off Qobs offobs => IsingQubo.ising_to_qubo_matches h J off Qobs offobs
-  | QI Q off hobs Jobs offobs => IsingQubo.qubo_to_ising_matches Q off hobs Jobs offobs
+  (* evaluated over the factors generated from utilities.py (IsingQuboGen; proved equal to IsingQubo) *)
+  | IQ h J off Qobs offobs => IsingQuboGen.ising_to_qubo_g_matches h J off Qobs offobs
+  | QI Q off hobs Jobs offobs => IsingQuboGen.qubo_to_ising_g_matches Q off hobs Jobs offobs
   | SSConv target off before after =>
       SSetVartype.ss_change_vartype_matches target off before (SSet.Ok after)
+  | SSFail target off before after =>
+      match SSetVartype.ss_change_vartype target off before with
+      | SSet.Fail m => SSet.sset_eqb m after || SSet.sset_eqb before after
+      | SSet.Ok _ => false
+      end
   | PyConv t before after =>
       PyBqm.pb_wfb before && PyBqm.pb_obs_eqb (PyBqm.pb_change_vartype t before) after
   | QmCv target v before after =>
@@ -150,4 +167,11 @@ Definition check (c : case) : bool :=
       opt_eqb VartypeOps.vo_cqm_eqb (option_map norm_marks (VartypeOps.cqm_change_vartype target v before)) after
   | CqmS2B before after =>
       opt_eqb VartypeOps.vo_cqm_eqb (option_map norm_marks (VartypeOps.cqm_spin_to_binary before)) (Some after)
+  | Flip n vt v before after =>
+      match FlipMarks.py_flip_variable vt v (obs_poly before) with
+      | Some p => poly_coeff_eqb n p (obs_poly after)
+      | None => false
+      end
+  | CqmFlip v before after =>
+      opt_eqb VartypeOps.vo_cqm_eqb (option_map norm_marks (VartypeOps.py_cqm_flip_variable v before)) after
   end.
